@@ -32,7 +32,7 @@ import randstat_oracle as ro  # noqa: E402
 from randstat_oracle import SRC, TAG, bits_str, ints_str  # noqa: E402
 import mpyc.random as mr  # noqa: E402
 
-LEVEL = 'proof'
+LEVEL = 'other'   # range/shape clauses proved for all inputs; uniformity proved by enumeration for n <= 16 only
 LEAN_MODULES = ['MpycV.Props.C33']
 LEAN_NAMESPACES = ['MpycV.C33']
 REQUIRED_THEOREMS = ['getrandbits_lt', 'randbelow_lt', 'randrange_mem', 'randrange_mem_neg', 'randint_mem',
@@ -46,9 +46,16 @@ RULE = ('A: every node of the rejection tree of _randbelow(n) / random_unit_vect
         'B: seeded bit streams, arguments stratified over ranges with positive/negative steps, population sizes 1..9, '
         'k = 0..n, weights with zeros and common factors; distinct by (function, arguments, stream). '
         'C: unpatched random_bits, m = 3, PRSS on/off, fixed seeds from VERIF_SEED')
-EXPLANATION = ('range/shape theorems hold for every bit stream and every n (general proofs); uniformity is proved as a '
-               'counting statement: kernel-checked enumeration of ALL bit streams up to depth L for every n <= 16 '
-               '(per public transcript every outcome has exactly one stream) plus general lemmas named in the report')
+EXPLANATION = ('PROVED for every n / range / population and EVERY bit stream (general proofs): getrandbits < 2^k, _randbelow < n, '
+               'randrange/randint in range and on the step grid (+ ValueError branches), random_unit_vector is a unit vector of '
+               'length n, shuffle/random_permutation are rearrangements, random_derangement has no fixed point, sample takes k '
+               'distinct positions / k distinct range elements, choice/choices return population members (weighted: cumulative '
+               'weights respected), random in [0,1), uniform between its bounds; random_bits constructions give 0/1 (+-1) and '
+               'r -> -r flips the bit.  PROVED by kernel-checked enumeration of ALL bit streams of length 2*bit_length(n-1) '
+               '(unit vector: the same for n <= 8, bit_length(n-1)+2 for n <= 16) for every n <= 16: per public transcript every '
+               'outcome of _randbelow / position of random_unit_vector is produced by equally many streams, no run exhausts the '
+               'loop fuel.  VALIDATED ONLY (harness, real code with enumerated bits): uniformity beyond that depth / for n > 16, '
+               'exact uniformity of shuffle (n <= 4) and weighted choices, balance with the real random_bits (chi-square 1e-9)')
 ASSUMPTIONS = ['runtime.random_bits returns independent uniform secret bits (its value layer is covered by random_bit_sqrt / '
                'random_bit_prod; uniformity of the underlying PRSS/secrets randomness is an assumption)',
                'from_bits, in_prod, scalar_mul, vector_add/sub, prod, is_zero_public and "<" compute their exact values '
